@@ -207,6 +207,126 @@ def exCtxW : PRef → Option (List (String × Nat)) := fun r => if r = .ext "vls
 example : EWF exCtxW exH = true := by decide
 end Modules
 
+/-! ## module names -/
+section Names
+
+structure NInv (name : Nat → String) (s : NState) : Prop where
+  nodup : (s.done.map name).Nodup
+  reserved : ∀ x ∈ s.done, name x ∈ s.reserved
+
+structure NStep (name : Nat → String) (s s' : NState) : Prop where
+  inv : NInv name s'
+  mono : ∀ n ∈ s.reserved, n ∈ s'.reserved
+  keep : ∀ x ∈ s.done, x ∈ s'.done
+  fresh : ∀ x ∈ s'.done, x ∈ s.done ∨ name x ∉ s.reserved
+
+theorem foldOpt_step (name : Nat → String) (f : NState → Nat → Option NState)
+    (hf : ∀ s c s', NInv name s → f s c = some s' → NStep name s s' ∧ c ∈ s'.done) :
+    ∀ (cs : List Nat) (s s' : NState), NInv name s → foldOpt f s cs = some s' → NStep name s s' ∧ ∀ c ∈ cs, c ∈ s'.done
+  | [], s, s', hi, h => by
+    simp only [foldOpt, Option.some.injEq] at h
+    subst h
+    exact ⟨⟨hi, fun _ h => h, fun _ h => h, fun x hx => Or.inl hx⟩, fun _ h => by cases h⟩
+  | c :: rest, s, s', hi, h => by
+    unfold foldOpt at h
+    cases hc : f s c with
+    | none => simp [hc] at h
+    | some s₁ =>
+      simp only [hc] at h
+      obtain ⟨st1, hm⟩ := hf s c s₁ hi hc
+      obtain ⟨st2, hall⟩ := foldOpt_step name f hf rest s₁ s' st1.inv h
+      refine ⟨⟨st2.inv, fun n hn => st2.mono n (st1.mono n hn), fun x hx => st2.keep x (st1.keep x hx), ?_⟩, ?_⟩
+      · intro x hx
+        rcases st2.fresh x hx with h1 | h1
+        · exact st1.fresh x h1
+        · exact Or.inr (fun hin => h1 (st1.mono _ hin))
+      · intro x hx
+        rcases List.mem_cons.mp hx with rfl | hx
+        · exact st2.keep _ hm
+        · exact hall x hx
+
+theorem exportNamed_step (name : Nat → String) (children : Nat → List Nat) :
+    ∀ (fuel : Nat) (s : NState) (m : Nat) (s' : NState), NInv name s → exportNamed name children fuel s m = some s' →
+      NStep name s s' ∧ m ∈ s'.done
+  | 0, _, _, _, _, h => by simp [exportNamed] at h
+  | fuel + 1, s, m, s', hi, h => by
+    unfold exportNamed at h
+    by_cases hd : m ∈ s.done
+    · simp only [hd, ↓reduceIte, Option.some.injEq] at h
+      subst h
+      exact ⟨⟨hi, fun _ h => h, fun _ h => h, fun x hx => Or.inl hx⟩, hd⟩
+    · simp only [hd, ↓reduceIte] at h
+      by_cases hr : name m ∈ s.reserved
+      · simp [hr] at h
+      · simp only [hr, ↓reduceIte] at h
+        cases hc : foldOpt (exportNamed name children fuel) { s with reserved := name m :: s.reserved } (children m) with
+        | none => simp [hc] at h
+        | some s₂ =>
+          simp only [hc, Option.some.injEq] at h
+          subst h
+          have hi1 : NInv name { s with reserved := name m :: s.reserved } :=
+            ⟨hi.nodup, fun x hx => List.mem_cons_of_mem _ (hi.reserved x hx)⟩
+          obtain ⟨st, _⟩ := foldOpt_step name _ (exportNamed_step name children fuel) (children m) _ s₂ hi1 hc
+          have hnm : name m ∉ s₂.done.map name := by
+            intro hin
+            obtain ⟨x, hx, hxn⟩ := List.mem_map.mp hin
+            rcases st.fresh x hx with h1 | h1
+            · exact hr (hxn ▸ hi.reserved x h1)
+            · exact h1 (hxn ▸ List.mem_cons_self ..)
+          refine ⟨⟨⟨?_, ?_⟩, ?_, ?_, ?_⟩, by simp⟩
+          · simp only [List.map_append, List.map_cons, List.map_nil]
+            rw [List.nodup_append]
+            refine ⟨st.inv.nodup, by simp, ?_⟩
+            intro a ha b hb hab
+            simp only [List.mem_singleton] at hb
+            subst hb; subst hab
+            exact hnm ha
+          · intro x hx
+            simp only [List.mem_append, List.mem_singleton] at hx
+            rcases hx with hx | rfl
+            · exact st.inv.reserved x hx
+            · exact st.mono _ (List.mem_cons_self ..)
+          · intro n hn; exact st.mono n (List.mem_cons_of_mem _ hn)
+          · intro x hx; exact List.mem_append_left _ (st.keep x hx)
+          · intro x hx
+            simp only [List.mem_append, List.mem_singleton] at hx
+            rcases hx with hx | rfl
+            · rcases st.fresh x hx with h1 | h1
+              · exact Or.inl h1
+              · exact Or.inr (fun hin => h1 (List.mem_cons_of_mem _ hin))
+            · exact Or.inr hr
+
+theorem nodup_map_inj {f : Nat → String} : ∀ (l : List Nat), (l.map f).Nodup → ∀ x ∈ l, ∀ y ∈ l, f x = f y → x = y
+  | [], _, _, hx, _, _, _ => by cases hx
+  | a :: rest, hnd, x, hx, y, hy, hxy => by
+    simp only [List.map_cons, List.nodup_cons] at hnd
+    have hxa := List.mem_cons.mp hx
+    have hya := List.mem_cons.mp hy
+    rcases hxa with e1 | e1
+    · rcases hya with e2 | e2
+      · rw [e1, e2]
+      · exact absurd (List.mem_map.mpr ⟨y, e2, by rw [← hxy, e1]⟩) hnd.1
+    · rcases hya with e2 | e2
+      · exact absurd (List.mem_map.mpr ⟨x, e1, by rw [hxy, e2]⟩) hnd.1
+      · exact nodup_map_inj rest hnd.2 x e1 y e2 hxy
+
+/-- **Module names are unique in every package that is returned**: whenever `export()` of any list of tops succeeds — the name
+    of a module being reserved before its dependencies are exported — every top is in the package and no two modules of the
+    package share a serialized name; in particular two different modules of one name below the tops make it raise. -/
+theorem exported_names_unique (name : Nat → String) (children : Nat → List Nat) (fuel : Nat) (tops : List Nat) (s' : NState)
+    (h : exportNamedTops name children fuel tops = some s') :
+    (s'.done.map name).Nodup ∧ (∀ t ∈ tops, t ∈ s'.done) ∧
+    ∀ x ∈ s'.done, ∀ y ∈ s'.done, name x = name y → x = y := by
+  have hi : NInv name ⟨[], []⟩ := ⟨by simp, fun _ h => by cases h⟩
+  obtain ⟨st, hall⟩ := foldOpt_step name _ (exportNamed_step name children fuel) tops _ s' hi h
+  exact ⟨st.inv.nodup, hall, nodup_map_inj _ st.inv.nodup⟩
+
+/-- two modules called "A" (0 and 2) below one top: refused; with distinct names: exported, dependencies first -/
+example : exportNamedTops (fun m => if m = 2 then "A" else if m = 0 then "A" else "B") (fun m => if m = 3 then [0, 2] else []) 5 [3] = none ∧
+    (exportNamedTops (fun m => if m = 0 then "A" else if m = 2 then "C" else "B") (fun m => if m = 3 then [0, 2] else []) 5 [3]).map (·.done) = some [0, 2, 3] := by
+  decide
+end Names
+
 /-! ### Non-vacuity: a diamond -/
 example : exportTops (fun m => if m = 3 then [1, 2] else if m = 1 ∨ m = 2 then [0] else []) 4 [3] = [0, 1, 2, 3] := by
   decide
